@@ -1092,7 +1092,8 @@ pub fn generate(property: &str, seed: u64, cfg: &Cfg, w: &Weights, n_events: usi
             }
             3 => {
                 let gr = anyof(&mut g, &created_groups, &groups);
-                let m = anyof(&mut g, &created, &all);
+                // "graph" runs nest groups in groups most of the time (cycles, chains into cycles)
+                let m = if cfg.focus == "graph" && g.chance(7, 10) { anyof(&mut g, &created_groups, &groups) } else { anyof(&mut g, &created, &all) };
                 if g.chance(2, 3) {
                     Op::AddMember { n, g: gr, m }
                 } else {
@@ -1355,7 +1356,22 @@ pub fn scenarios() -> Vec<Box<dyn Scenario>> {
     v.push(dir("C03", "Random directory histories (renames, recycle/revive, purge, reaping, replication applies incl. uuid-changing conflicts, reindex, restart, small ARC caches); after every commit on the touched node: server verify(), index tables == keys recomputed from stored entries (two-sided), lookup tables and name resolution == scan, indexed search == scan.", 240));
     v.push(dir("C15", "Random directory histories with adversarial (ill-typed, missing-must, disallowed-attribute, unknown-class, multi-value) creates and modifies and replicated merges; after every commit each live entry is checked against the schema dumped from the same transaction; refused operations must leave the database digest unchanged.", 240));
     v.push(dir("C16", "Random histories over reference-bearing entries (members, entry managers), deletes, revives, purges, replicated conflicts; after every commit every reference-typed attribute of every live entry must point at a live entry on that node.", 240));
-    v.push(dir("C17", "Random group graphs (cycles, self-membership, dyngroups) edited by member add/remove, delete/revive and replication; after every commit memberof/directmemberof are recomputed by breadth-first closure in the harness and compared exactly.", 240));
+    fn mk_graph(k: &mut Rng, tier: Tier) -> (Cfg, Weights, usize, bool) {
+        let nodes = if k.chance(2, 3) { 1 } else { 2 };
+        let cfg = Cfg { nodes, file_backed: false, arc: None, focus: "graph".into(), auto_refresh: true, quiesce: true, faults: false, tick: true };
+        let mut w = w_default();
+        w.create = 10;
+        w.member = 40;
+        w.delete = 5;
+        w.revive = 4;
+        w.rename = 1;
+        w.attr = 1;
+        w.dynf = 2;
+        w.repl = if nodes > 1 { 12 } else { 0 };
+        let n = if tier == Tier::Quick { 30 + k.below(50) as usize } else { 30 + k.below(150) as usize };
+        (cfg, w, n, false)
+    }
+    v.push(Box::new(ClusterScenario { id: "C17", enabled: vec!["C17"], quick_runs: 320, thorough_runs: 40_000, rule: "Random group graphs up to 8 groups (cycles, self-membership, chains into cycles, dyngroups) built and edited by member add/remove (groups nested in groups most of the time), group delete/revive and replicated membership changes; after every commit memberof/directmemberof are recomputed by breadth-first closure in the harness and compared exactly.", mk: mk_graph }));
     v.push(dir("C18", "Dynamic groups with random filters, candidate create/rename/delete/revive, filter edits, replication, restart; after every commit dynmember == harness evaluation of the group's filter over the live entries of that node.", 240));
     v.push(dir("C19", "Creates and renames from a tiny name/uuid pool on 1–3 replicas with random replication schedules; after every commit no two live entries share a uuid or a unique attribute value.", 240));
     fn mk_single(k: &mut Rng, tier: Tier) -> (Cfg, Weights, usize, bool) {
